@@ -135,6 +135,68 @@ constexpr Obs<L> run (const Prog<L>& p)
   return o;
 }
 
+// Converting scenarios: elements built / assigned from values and ranges of other integral types (the bulk-copy
+// shortcuts exist only at run time; constant evaluation takes the generic branches).  Observations are the element
+// values converted to long.
+static constexpr int CONV_OBS = 64;
+template <unsigned N>
+constexpr std::array<long, CONV_OBS> conv_scenario (int seed)
+{
+  std::array<long, CONV_OBS> o { };
+  std::size_t k = 0;
+  const std::array<unsigned char, 6> uc { static_cast<unsigned char> ((seed & 0x7c) | 2), 7, 0, 1, 0xfe, static_cast<unsigned char> (seed & 0xff) };
+  const std::array<signed char, 4> sc { static_cast<signed char> (-(seed & 0x3f) - 2), 0, 5, -1 };
+  const std::array<unsigned, 5> us { 0u, 1u, 0x80000000u + static_cast<unsigned> (seed), 0xffffffffu, 77u };
+  const std::array<int, 4> is { -1, seed, -2147483647 - 1, 3 };
+  const std::array<long long, 3> ls { 1ll << 33 | seed, -5, 70000 };
+  {
+    gch::small_vector<bool, N> b (uc.begin (), uc.end ());
+    gch::small_vector<unsigned char, 3> g (uc.begin (), uc.end ());
+    for (bool x : b) o[k++] = static_cast<long> (x);
+    b.assign (g.begin (), g.end ());
+    b.insert (b.begin () + 1, sc.begin (), sc.end ());
+    b.emplace_back (uc[4]);
+    b.emplace (b.begin (), sc[0]);
+    b.append (g.cbegin (), g.cend ());
+    o[k++] = static_cast<long> (b.size ());
+    long w = 0;
+    for (bool x : b) w = w * 3 + static_cast<long> (x);
+    o[k++] = w;
+  }
+  {
+    gch::small_vector<int, N> v (us.begin (), us.end ());
+    v.insert (v.begin () + 2, ls.begin (), ls.end ());
+    v.append (sc.begin (), sc.end ());
+    for (int x : v) if (k < CONV_OBS - 12) o[k++] = x;
+    gch::small_vector<unsigned, N> u (is.begin (), is.end ());
+    u.assign (sc.begin (), sc.end ());
+    u.insert (u.end (), is.begin (), is.end ());
+    for (unsigned x : u) if (k < CONV_OBS - 2) o[k++] = static_cast<long> (x);
+    gch::small_vector<short, N> h (is.begin (), is.end ());
+    h.append (us.begin (), us.end ());
+    long w = 0;
+    for (short x : h) w = (w * 31 + x) % 1000003;
+    o[k++] = w;
+  }
+  return o;
+}
+
+[[gnu::noinline]] inline int launder_int (int x) { volatile int v = x; return v; }
+
+template <unsigned N>
+inline int check_conv (int id, int seed, const std::array<long, CONV_OBS>& ct)
+{
+  const std::array<long, CONV_OBS> rt = conv_scenario<N> (launder_int (seed));
+  for (std::size_t i = 0; i < CONV_OBS; ++i)
+    if (rt[i] != ct[i])
+    {
+      std::printf ("{\"type\":\"violation\",\"prop\":\"C08\",\"monitor\":\"cx.conversion-compile-time-vs-run-time\",\"key\":\"C08|cx.conversion-compile-time-vs-run-time|N%u\",\"case\":\"conv:%d\","
+                   "\"msg\":\"converting scenario %d (N=%u, seed %d): observation %zu is %ld at compile time but %ld at run time\"}\n", N, id, id, N, seed, i, ct[i], rt[i]);
+      return 1;
+    }
+  return 0;
+}
+
 // run-time side: launder the program so that nothing is a manifestly constant-evaluated context
 template <std::size_t L>
 [[gnu::noinline]] inline Prog<L> launder_prog (const Prog<L>& p)
